@@ -72,6 +72,15 @@ def gen_cases(ctx):
       ctx.count('mode', case['mode'])
       ctx.count('backend_cases', lqb.arm(case))
       yield with_faults(rng, case, ctx)
+  # the async API under the fault events: an async producer (async_enqueue_from_iterator on a deterministic event loop)
+  # whose source raises / that is stopped by maybe_stop() / maybe_stop(exc) from a thread; async and sync consumers
+  for k in range(9 if ctx.quick else 180):
+    for ab, bds in lqb.ASYNC_BUFFERS.items():
+      for bd in bds:
+        case = lqb.gen_async_fault_case(rng, k, ab, bd, 3 if ctx.quick else 5)
+        case['mode'] = 'async:' + case['event']
+        ctx.count('mode', case['mode'])
+        yield case
 
 
 POST = ['get', 'get_nowait', 'get_batch', 'iter']
@@ -188,17 +197,37 @@ def extra(ctx):
     from harness.core import InfraError
     if not (sum(lqb.VERDICT.values()) or ctx.extra_disagreements or ctx.extra_oracle_failures):
       raise InfraError(f'C05: promised event orders not exercised by any run that ended: {missing}')
-  lqb.enforce(ctx)
+  # the async arms under faults: every buffer x bounded/unbounded ran (their Full / Empty coverage is enforced by C04)
+  lqb.enforce(ctx, extra_required=[k for k in lqb.async_required() if (k.endswith('/async') or
+                                   k in ('async_api:async_enqueue_from_iterator', 'async_api:sync'))])
 
 
-run_impl = lq.run_impl
-model_requests_obs = lq.model_requests_obs
+def run_impl(case):
+  return lqb.run_impl(case, lq.run_impl)
+
+
+def model_requests_obs(case, obs):
+  if lqb.kind(case) == 'async':
+    return [lqb.async_model_request(case, obs)]
+  return lq.model_requests_obs(case, obs)
+
+
 model_requests = None
-model_obs = lq.model_obs
+
+
+def model_obs(case, resps):
+  if lqb.kind(case) == 'async':
+    return dict(kind='async', resp=resps[0])
+  return lq.model_obs(case, resps)
 
 
 def compare(obs, m):
-  d = lq.compare(obs, m)
+  if isinstance(m, dict) and m.get('kind') == 'async':
+    d = lqb.async_compare(obs, m['resp'])
+    if obs.get('late_loop_check'):
+      lqb.COV['async:late_loop_check'] += 1
+  else:
+    d = lq.compare(obs, m)
   if d is not None:
     lqb.VERDICT['disagreement'] += 1
   if isinstance(obs, dict) and obs.get('oracle_new_failure'):
@@ -278,6 +307,19 @@ def _oracle(case, obs):
     o, x = th[i]['outcome'], excs[i]
     if o and o['raise'].startswith('Base:'):
       return f'producer {i} ended with {x}, which no source raised'
+  # ---- "all other producers stop": once a stop request is complete (its thread has ended) or a failing producer has
+  # ended, a producer pulls at most ONE more element from its source (the pull it may already be committed to)
+  h0 = history(case, obs)
+  for ev in h0['events']:
+    if ev[1] in ('cleanstop', 'excstop', 'fail', 'puttimeout') and ev[2] in h0['last'] and obs['threads'][ev[2]]['done']:
+      at = h0['last'][ev[2]]
+      for i, _ in lq.producers(case):
+        if i == ev[2]:
+          continue
+        later = [k for k, (tid, lbl) in enumerate(obs['trace']) if tid == i and lbl == 'next' and k > at]
+        if len(later) > 1:
+          return (f'producer {i} pulled {len(later)} more elements from its source after the {ev[1]} of thread {ev[2]} was '
+                  f'complete (step {at}): it did not stop')
   # ---- observers after the fact (round 8): a recorded failure is never cleared; every consumer that arrives after it
   # was recorded observes it -- whatever stop requests / timeouts happened in between
   h = history(case, obs)
@@ -369,7 +411,10 @@ def observe(case, obs):
 
 def nontrivial(case, obs):
   observe(case, obs)
-  lqb.note_run(case, obs)
+  if lqb.kind(case) == 'async':
+    lqb.note_async(case, obs)
+  else:
+    lqb.note_run(case, obs)
   ch = [c[0] for c in obs['choices']]
   turns = sum(1 for a, b in zip(ch, ch[1:]) if a != b)
   fault = any(t['outcome'] and t['outcome']['raise'] != 'StopIteration' for t in obs['threads']) or \
